@@ -46,6 +46,9 @@ theorem cast_eq_zero_of_lt {x : Nat} (hx : x < pv) : (x : ZMod pv) = 0 ↔ x = 0
     exact Nat.eq_zero_of_dvd_of_lt hd hx
   · rintro rfl; exact dvd_zero _
 
+theorem one_elem (h : CfgOK c pv) : Elem c pv c.r :=
+  ⟨h.r_len, h.r_wf, by rw [h.r_val]; exact Nat.mod_lt _ (by have := h.p_gt; omega)⟩
+
 variable [Fact pv.Prime]
 
 /-- `R = 2^(64N)` is a unit modulo the odd prime `pv` -/
@@ -96,18 +99,10 @@ theorem den_inj (h : CfgOK c pv) {a b : List Nat} (ha : Elem c pv a) (hb : Elem 
 
 /-! ### constants -/
 
-theorem zeros_elem (h : CfgOK c pv) : Elem c pv (zeros c.n) :=
-  ⟨List.length_replicate, WF_replicate_zero _, by
-    show value (List.replicate c.n 0) < pv
-    rw [value_replicate_zero]; have := h.p_gt; omega⟩
-
 theorem den_zeros : den c pv (zeros c.n) = 0 := by
   rw [den_def]
   show ((value (List.replicate c.n 0) : ℕ) : ZMod pv) * _ = 0
   rw [value_replicate_zero, Nat.cast_zero, zero_mul]
-
-theorem one_elem (h : CfgOK c pv) : Elem c pv c.r :=
-  ⟨h.r_len, h.r_wf, by rw [h.r_val]; exact Nat.mod_lt _ (by have := h.p_gt; omega)⟩
 
 theorem den_one (h : CfgOK c pv) : den c pv c.r = 1 := by
   rw [den_def, h.r_val, ZMod.natCast_mod, mul_inv_cancel₀ (R_ne_zero h)]
@@ -208,6 +203,296 @@ theorem den_sumOfProducts (h : CfgOK c pv) {as bs : List (List Nat)}
   obtain ⟨e1, e2⟩ := C01.sum_of_products_correct h hlen ha hb
   refine ⟨e1, ?_⟩
   rw [← cast_sum_pairs (c := c) (as.zip bs), den_def, cast_of_mont h e2]
+
+/-! ### the `Ops.Interp` instance -/
+
+/-- the Montgomery backend interpreted in `ZMod pv`: valid representations are the canonical
+    elements, the denotation is `den` -/
+def montInterp (h : CfgOK c pv) : (montOps c).Interp (ZMod pv) where
+  V := Elem c pv
+  φ := den c pv
+  one_V := one_elem h
+  one_φ := den_one h
+  mul_V := fun ha hb => (C01.mul_correct h ha hb).1
+  mul_φ := fun ha hb => den_mul h ha hb
+  square_V := fun ha => (C01.square_correct h ha).1
+  square_φ := fun ha => den_square h ha
+  isZero_iff := fun ha => den_isZero_iff h ha
+  inv_some := fun ha hne => den_inverse h ha hne
+
+theorem den_pow (h : CfgOK c pv) {a : List Nat} (ha : Elem c pv a) (e : List Nat) (he : WF e) :
+    Elem c pv ((montOps c).pow a (toBitsBE e)) ∧
+    den c pv ((montOps c).pow a (toBitsBE e)) = den c pv a ^ value e :=
+  Ops.pow_limbs_correct (montInterp h) ha e he
+
+theorem den_pow_bits (h : CfgOK c pv) {a : List Nat} (ha : Elem c pv a) (bits : List Bool) :
+    Elem c pv ((montOps c).pow a bits) ∧
+    den c pv ((montOps c).pow a bits) = den c pv a ^ bitsValBE bits :=
+  Ops.pow_correct (montInterp h) ha bits
+
+theorem den_batchInvMul (h : CfgOK c pv) (v : List (List Nat)) (coeff : List Nat)
+    (hv : ∀ f ∈ v, Elem c pv f) (hc : Elem c pv coeff) :
+    ∃ w, (montOps c).batchInvMul v coeff = some w ∧ w.length = v.length ∧
+      (∀ x ∈ w, Elem c pv x) ∧
+      ∀ (i : Nat) (h1 : i < v.length) (h2 : i < w.length),
+        (den c pv v[i] = 0 → w[i] = v[i]) ∧
+        (den c pv v[i] ≠ 0 → den c pv w[i] = den c pv coeff * (den c pv v[i])⁻¹) :=
+  Ops.batchInvMul_correct (montInterp h) v coeff hv hc
+
+/-! ### integer conversions -/
+
+theorem fromBigintUnwrap_ok (h : CfgOK c pv) {x : Nat} (hx : x < pv) :
+    ∃ r, fromBigintUnwrap c x = .ok r ∧ Elem c pv r ∧ den c pv r = (x : ZMod pv) := by
+  have hl : Limbs c (toLimbs c.n x) := ⟨toLimbs_length _ _, toLimbs_wf _ _⟩
+  have hv : value (toLimbs c.n x) = x := by
+    rw [toLimbs_value, Nat.mod_eq_of_lt (Nat.lt_trans hx h.p_lt)]
+  obtain ⟨r, e1, e2, e3⟩ := den_fromBigint h hl (by rw [hv]; exact hx)
+  refine ⟨r, ?_, e2, by rw [e3, hv]⟩
+  unfold fromBigintUnwrap; rw [e1]
+
+omit [Fact pv.Prime] in
+theorem fromBigintUnwrap_panic (h : CfgOK c pv) {x : Nat} (hx : pv ≤ x) (hlt : x < B ^ c.n) :
+    fromBigintUnwrap c x = .panic := by
+  have hl : Limbs c (toLimbs c.n x) := ⟨toLimbs_length _ _, toLimbs_wf _ _⟩
+  have hv : value (toLimbs c.n x) = x := by rw [toLimbs_value, Nat.mod_eq_of_lt hlt]
+  unfold fromBigintUnwrap
+  rw [C01.from_bigint_none h hl (by rw [hv]; exact hx)]
+
+omit [Fact pv.Prime] in
+theorem p_headD_one (h : CfgOK c pv) (hn : c.n = 1) : c.p.headD 1 = pv := by
+  have hl := h.p_len
+  have hv := h.p_val
+  rw [hn] at hl
+  match hp : c.p, hl with
+  | [p0], _ =>
+    rw [hp] at hv
+    simp only [value, Nat.mul_zero, Nat.add_zero] at hv
+    simpa using hv
+
+/-- `From<u64>`: correct whenever `N = 1` (reduction first) or `x < p` -/
+theorem fromU64_ok (h : CfgOK c pv) {x : Nat} (hx : c.n = 1 ∨ x < pv) :
+    ∃ r, fromU64 c x = .ok r ∧ Elem c pv r ∧ den c pv r = (x : ZMod pv) := by
+  have hp : 0 < pv := by have := h.p_gt; omega
+  unfold fromU64
+  by_cases hn : c.n = 1
+  · rw [if_pos (by simp [hn]), p_headD_one h hn]
+    obtain ⟨r, e1, e2, e3⟩ := fromBigintUnwrap_ok h (Nat.mod_lt x hp)
+    exact ⟨r, e1, e2, by rw [e3, ZMod.natCast_mod]⟩
+  · rw [if_neg (by simp [hn])]
+    exact fromBigintUnwrap_ok h (hx.resolve_left hn)
+
+omit [Fact pv.Prime] in
+/-- with more limbs than needed (`N ≥ 2`, `p ≤ x < 2^64`) the `unwrap` panics -/
+theorem fromU64_panic (h : CfgOK c pv) {x : Nat} (hn : c.n ≠ 1) (hx : pv ≤ x) (hlt : x < B) :
+    fromU64 c x = .panic := by
+  unfold fromU64
+  rw [if_neg (by simp [hn])]
+  apply fromBigintUnwrap_panic h hx
+  have : B ^ 1 ≤ B ^ c.n := Nat.pow_le_pow_right B_pos h.n_pos
+  rw [Nat.pow_one] at this; omega
+
+omit [Fact pv.Prime] in
+/-- minimal limb count ⇒ every `u64` is below a modulus of `N ≥ 2` limbs -/
+theorem u64_lt_of_min (h : CfgOK c pv) (hmin : B ^ (c.n - 1) ≤ pv) {x : Nat} (hx : x < B) :
+    c.n = 1 ∨ x < pv := by
+  by_cases hn : c.n = 1
+  · exact Or.inl hn
+  · right
+    have h2 : 1 ≤ c.n - 1 := by have := h.n_pos; omega
+    have : B ^ 1 ≤ B ^ (c.n - 1) := Nat.pow_le_pow_right B_pos h2
+    rw [Nat.pow_one] at this; omega
+
+omit [Fact pv.Prime] in
+/-- shape of the modulus limbs for `N ≥ 2` -/
+theorem p_two_limbs (h : CfgOK c pv) (hn : c.n ≠ 1) :
+    ∃ p0 p1 rest, c.p = p0 :: p1 :: rest ∧ rest.length = c.n - 2 ∧
+      pv = p0 + B * p1 + B ^ 2 * value rest := by
+  have hl := h.p_len
+  have hv := h.p_val
+  have hpos := h.n_pos
+  match hp : c.p, hl with
+  | [], hl => simp at hl; omega
+  | [_], hl => simp at hl; omega
+  | p0 :: p1 :: rest, hl =>
+    refine ⟨p0, p1, rest, rfl, by simp at hl; omega, ?_⟩
+    rw [hp] at hv
+    simp only [value] at hv
+    rw [← hv]; ring
+
+/-- `From<u128>`: correct for every `x < 2^128`, whatever the limb count -/
+theorem fromU128_ok (h : CfgOK c pv) {x : Nat} (hx : x < B ^ 2) :
+    ∃ r, fromU128 c x = .ok r ∧ Elem c pv r ∧ den c pv r = (x : ZMod pv) := by
+  have hp : 0 < pv := by have := h.p_gt; omega
+  unfold fromU128
+  by_cases hn : c.n = 1
+  · rw [if_pos (by simp [hn]), p_headD_one h hn]
+    obtain ⟨r, e1, e2, e3⟩ := fromBigintUnwrap_ok h (Nat.mod_lt x hp)
+    exact ⟨r, e1, e2, by rw [e3, ZMod.natCast_mod]⟩
+  · rw [if_neg (by simp [hn])]
+    obtain ⟨p0, p1, rest, e, hrl, hpv⟩ := p_two_limbs h hn
+    by_cases hb : (c.n == 2 || isZero (c.p.drop 2)) = true
+    · rw [if_pos hb]
+      have hr0 : value rest = 0 := by
+        rw [Bool.or_eq_true] at hb
+        rcases hb with hb | hb
+        · have : c.n = 2 := by simpa using hb
+          have : rest = [] := List.length_eq_zero_iff.1 (by omega)
+          rw [this]; rfl
+        · rw [e] at hb
+          exact (isZero_iff _).1 hb
+      have hm : c.p.headD 0 + B * c.p.getD 1 0 = pv := by
+        rw [e, hpv, hr0]; simp
+      simp only [hm]
+      obtain ⟨r, e1, e2, e3⟩ := fromBigintUnwrap_ok h (Nat.mod_lt x hp)
+      exact ⟨r, e1, e2, by rw [e3, ZMod.natCast_mod]⟩
+    · rw [if_neg hb]
+      apply fromBigintUnwrap_ok h
+      have hr0 : value rest ≠ 0 := by
+        intro h0
+        apply hb
+        rw [Bool.or_eq_true]; right
+        rw [e]; exact (isZero_iff _).2 h0
+      have : B ^ 2 * 1 ≤ B ^ 2 * value rest := Nat.mul_le_mul_left _ (by omega)
+      omega
+
+/-- the sign handling shared by all `From<i*>` impls -/
+theorem fromSigned_of_abs (h : CfgOK c pv) (wide : Bool) (x : Int) {a : List Nat}
+    (habs : (if wide then fromU128 c x.natAbs else fromU64 c x.natAbs) = .ok a)
+    (ha : Elem c pv a) (hd : den c pv a = (x.natAbs : ZMod pv)) :
+    ∃ r, fromSigned c wide x = .ok r ∧ Elem c pv r ∧ den c pv r = (x : ZMod pv) := by
+  unfold fromSigned
+  simp only [habs]
+  by_cases hpos : x > 0
+  · rw [if_pos hpos]
+    refine ⟨a, rfl, ha, ?_⟩
+    rw [hd]
+    have : ((x.natAbs : ℤ) : ZMod pv) = (x : ZMod pv) := by
+      rw [Int.natAbs_of_nonneg (le_of_lt hpos)]
+    rw [← this, Int.cast_natCast]
+  · rw [if_neg hpos]
+    refine ⟨neg c a, rfl, (C01.neg_exact h a ha).1, ?_⟩
+    rw [den_neg h ha, hd]
+    have : ((x.natAbs : ℤ) : ZMod pv) = ((-x : ℤ) : ZMod pv) := by
+      rw [Int.ofNat_natAbs_of_nonpos (not_lt.1 hpos)]
+    rw [← Int.cast_natCast, this, Int.cast_neg, neg_neg]
+
+theorem fromSigned_narrow_ok (h : CfgOK c pv) {x : Int} (hx : c.n = 1 ∨ x.natAbs < pv) :
+    ∃ r, fromSigned c false x = .ok r ∧ Elem c pv r ∧ den c pv r = (x : ZMod pv) := by
+  obtain ⟨a, e1, e2, e3⟩ := fromU64_ok h hx
+  exact fromSigned_of_abs h false x (by simpa using e1) e2 e3
+
+theorem fromSigned_wide_ok (h : CfgOK c pv) {x : Int} (hx : x.natAbs < B ^ 2) :
+    ∃ r, fromSigned c true x = .ok r ∧ Elem c pv r ∧ den c pv r = (x : ZMod pv) := by
+  obtain ⟨a, e1, e2, e3⟩ := fromU128_ok h hx
+  exact fromSigned_of_abs h true x (by simpa using e1) e2 e3
+
+/-! ### byte strings -/
+
+omit [Fact pv.Prime] in
+theorem bytesValueLE_lt (l : List Nat) (hb : ∀ b ∈ l, b < 256) :
+    bytesValueLE l < 256 ^ l.length := by
+  induction l with
+  | nil => simp [bytesValueLE]
+  | cons b l ih =>
+    have h1 := hb b (by simp)
+    have h2 := ih (fun x hx => hb x (by simp [hx]))
+    simp only [bytesValueLE, List.length_cons, Nat.pow_succ]
+    omega
+
+omit [Fact pv.Prime] in
+theorem bytesValueLE_append (l1 l2 : List Nat) :
+    bytesValueLE (l1 ++ l2) = bytesValueLE l1 + 256 ^ l1.length * bytesValueLE l2 := by
+  induction l1 with
+  | nil => simp [bytesValueLE]
+  | cons b l ih =>
+    simp only [List.cons_append, bytesValueLE, ih, List.length_cons, Nat.pow_succ]
+    ring
+
+omit [Fact pv.Prime] in
+/-- `modulusBytes = ⌈bits/8⌉`, so `modulusBytes − 1` whole bytes always fit below the modulus -/
+theorem pow_modulusBytes_le (h : CfgOK c pv) : 256 ^ (modulusBytes c - 1) ≤ pv := by
+  have hb : numBits c.p = bitLen pv := by rw [numBits_spec c.p h.p_wf, h.p_val]
+  have hp := h.p_gt
+  have h1 : ¬ bitLen pv ≤ bitLen pv - 1 := by
+    have h0 : ¬ bitLen pv ≤ 0 := by rw [bitLen_le_iff]; omega
+    omega
+  rw [bitLen_le_iff] at h1
+  have h2 : 8 * (modulusBytes c - 1) ≤ bitLen pv - 1 := by
+    unfold modulusBytes; rw [hb]; omega
+  have h3 : (256 : Nat) ^ (modulusBytes c - 1) = 2 ^ (8 * (modulusBytes c - 1)) := by
+    rw [Nat.pow_mul]
+  rw [h3]
+  exact Nat.le_trans (Nat.pow_le_pow_right (by omega) h2) (not_lt.1 h1)
+
+theorem bytes_fold (h : CfgOK c pv) {w : List Nat} (hw : Elem c pv w)
+    (hdw : den c pv w = 256) :
+    ∀ (L : List Nat), (∀ b ∈ L, c.n = 1 ∨ b < pv) → ∀ res, Elem c pv res →
+    ∃ r, L.reverse.foldl (fun (acc : Outcome (List Nat)) byte =>
+        match acc, fromU64 c byte with
+        | .ok res, .ok bb => .ok (add c (mul c res w) bb)
+        | _, _ => .panic) (.ok res) = .ok r ∧ Elem c pv r ∧
+      den c pv r = (bytesValueLE L : ZMod pv) + 256 ^ L.length * den c pv res := by
+  intro L
+  induction L with
+  | nil =>
+    intro _ res hres
+    exact ⟨res, rfl, hres, by simp [bytesValueLE]⟩
+  | cons b L ih =>
+    intro hL res hres
+    obtain ⟨r1, e1, e2, e3⟩ := ih (fun x hx => hL x (by simp [hx])) res hres
+    obtain ⟨bb, f1, f2, f3⟩ := fromU64_ok h (hL b (by simp))
+    have hm := (C01.mul_correct h e2 hw).1
+    refine ⟨add c (mul c r1 w) bb, ?_, (C01.add_exact h _ _ hm f2).1, ?_⟩
+    · rw [List.reverse_cons, List.foldl_append, e1]
+      simp only [List.foldl_cons, List.foldl_nil, f1]
+    · rw [den_add h hm f2, den_mul h e2 hw, e3, hdw, f3]
+      simp only [bytesValueLE, List.length_cons, Nat.cast_add, Nat.cast_mul, Nat.cast_ofNat]
+      ring
+
+/-- `from_le_bytes_mod_order`: correct for every byte string as soon as the field elements
+    `256` and the single bytes can be built (`N = 1`, or `256 < p`) -/
+theorem fromLeBytes_ok (h : CfgOK c pv) (bytes : List Nat) (hb : ∀ b ∈ bytes, b < 256)
+    (hs : c.n = 1 ∨ 256 < pv) :
+    ∃ r, fromLeBytesModOrder c bytes = .ok r ∧ Elem c pv r ∧
+      den c pv r = (bytesValueLE bytes : ZMod pv) := by
+  have hk : min (modulusBytes c - 1) bytes.length ≤ bytes.length := Nat.min_le_right _ _
+  have hk2 : min (modulusBytes c - 1) bytes.length ≤ modulusBytes c - 1 := Nat.min_le_left _ _
+  generalize hkdef : min (modulusBytes c - 1) bytes.length = k at hk hk2
+  have hdl : (bytes.drop (bytes.length - k)).length = k := by
+    rw [List.length_drop]; omega
+  have hdlt : bytesValueLE (bytes.drop (bytes.length - k)) < pv := by
+    have h1 := bytesValueLE_lt (bytes.drop (bytes.length - k))
+      (fun x hx => hb x (List.mem_of_mem_drop hx))
+    rw [hdl] at h1
+    have h2 : (256 : Nat) ^ k ≤ 256 ^ (modulusBytes c - 1) := Nat.pow_le_pow_right (by omega) hk2
+    have h3 := pow_modulusBytes_le h
+    omega
+  have hl : Limbs c (toLimbs c.n (bytesValueLE (bytes.drop (bytes.length - k)))) :=
+    ⟨toLimbs_length _ _, toLimbs_wf _ _⟩
+  have hv : value (toLimbs c.n (bytesValueLE (bytes.drop (bytes.length - k))))
+      = bytesValueLE (bytes.drop (bytes.length - k)) := by
+    rw [toLimbs_value, Nat.mod_eq_of_lt (Nat.lt_trans hdlt h.p_lt)]
+  obtain ⟨res0, e1, e2, e3⟩ := den_fromBigint h hl (by rw [hv]; exact hdlt)
+  obtain ⟨w, w1, w2, w3⟩ := fromU64_ok h (x := 256) hs
+  have hbytes : ∀ b ∈ bytes.take (bytes.length - k), c.n = 1 ∨ b < pv := by
+    intro b hbm
+    rcases hs with hs | hs
+    · exact Or.inl hs
+    · right; have := hb b (List.mem_of_mem_take hbm); omega
+  obtain ⟨r, f1, f2, f3⟩ := bytes_fold h w2 (by rw [w3]; norm_num)
+    (bytes.take (bytes.length - k)) hbytes res0 e2
+  refine ⟨r, ?_, f2, ?_⟩
+  · unfold fromLeBytesModOrder
+    simp only [hkdef, e1, w1]
+    exact f1
+  · rw [f3, e3, hv]
+    have hsplit := bytesValueLE_append (bytes.take (bytes.length - k)) (bytes.drop (bytes.length - k))
+    rw [List.take_append_drop] at hsplit
+    rw [hsplit, Nat.cast_add, Nat.cast_mul, Nat.cast_pow, Nat.cast_ofNat]
+
+omit [Fact pv.Prime] in
+theorem byte_small_of_min (h : CfgOK c pv) (hmin : B ^ (c.n - 1) ≤ pv) : c.n = 1 ∨ 256 < pv :=
+  u64_lt_of_min h hmin (by unfold B; omega)
 
 end
 end Ark.Mont
